@@ -6,8 +6,9 @@ import subprocess
 import tempfile
 
 ROOT = os.path.dirname(os.path.dirname(os.path.abspath(__file__)))
-ENGINE_BIN = os.path.join(ROOT, ".build", "engine-target", "debug", "rsjv")
-CLI_BIN = os.path.join(ROOT, ".build", "cli-target", "debug", "rsjsonnet")
+# The registered commands always use the binaries rebuilt from /repo; the overrides exist for scratch-copy mutant runs.
+ENGINE_BIN = os.environ.get("RSJV_ENGINE_BIN") or os.path.join(ROOT, ".build", "engine-target", "debug", "rsjv")
+CLI_BIN = os.environ.get("RSJV_CLI_BIN") or os.path.join(ROOT, ".build", "cli-target", "debug", "rsjsonnet")
 
 
 class Inconclusive(Exception):
